@@ -285,7 +285,13 @@ class Replacer:
         path, filename = os.path.split(path)
         combined = os.path.normpath(os.path.join(self.base, path, filename))
         # quote like pathname2url but keep escapes which are present already
-        path = urllib.parse.quote(combined.replace(os.sep, '/'), safe='/%')
+        # and the characters RFC 3986 allows in a path unescaped
+        path = urllib.parse.quote(
+            combined.replace(os.sep, '/'), safe="/%:@!$&'()*+,;="
+        )
+        if ':' in path.split('/', 1)[0]:
+            # a first segment with a colon would be taken for a scheme
+            path = './' + path
         return urllib.parse.urlunsplit(('', '', path, query, fragment))
 
     @staticmethod
